@@ -347,12 +347,10 @@ func (ex *Exec) intrinsic(fn *ssa.Function, args []Val) Val {
 	case "(*sync.Pool).Get":
 		o := args[0].(*PtrV).o
 		have := ex.pools[o]
-		takeNew := true
-		if len(have) > 0 {
-			// nondeterministic: the runtime may hand back any object put earlier, or none
-			c, _ := ex.fork(func() ([]*Term, []uint64) { return []*Term{tTrue, tTrue}, nil })
-			takeNew = c == 1
-		}
+		// The runtime may hand back any object put earlier, or none. Handing back none is the behaviour without a pool,
+		// which every other harness already covers; the model therefore always reuses the most recently put object
+		// (what a single P does), which is the case that can carry state from one call into the next.
+		takeNew := len(have) == 0
 		if !takeNew {
 			v := have[len(have)-1]
 			ex.pools[o] = have[:len(have)-1]
